@@ -2,9 +2,10 @@
    Chunk size: refused exactly for 0 and above 2^31-1 by serializer and deserializer, propagated by the session constructor;
    payloads: refused exactly above 16,777,215 bytes; AMF0 strings / names: C04 (refused exactly above 65,535 bytes or empty name).
    The slicing loop of serialize terminates for every accepted chunk size (>= 1) - and provably never for 0, which is why 0 is
-   refused - and every reachable serializer state has a chunk size >= 1.  "Accepted values yield a working codec" is C01/C07. *)
+   refused - and every reachable serializer state has a chunk size >= 1.  "Accepted values yield a working codec" is C01/C07.
+   Bounded memory of the output: a packet is at most 17 * payload + 16 bytes, a chunk-size announcement at most 84 (SerSizeProofs.v). *)
 From RML Require Import Model.Base Model.Chunk Model.ChunkSer Model.ChunkDe Model.SessionCommon Model.Server Model.Amf0 Spec.Amf0Wire
-  Proofs.ChunkSerProofs Proofs.ConfigProofs Proofs.Amf0Proofs.
+  Proofs.ChunkSerProofs Proofs.ConfigProofs Proofs.Amf0Proofs Proofs.SerSizeProofs.
 Local Open Scope N_scope.
 
 Theorem C19_ser_chunk_size : forall st n ts, 1 <= s_max st ->
@@ -41,6 +42,16 @@ Theorem C19_amf0_refused : forall vs, wf_values vs ->
   (expressible_all vs = false -> exists e, Amf0.serialize vs = Err e).
 Proof. exact roundtrip. Qed.
 
+(* bounded output: every chunk adds at most 16 header bytes and carries at least one payload byte *)
+Theorem C19_serialize_output_bounded : forall (st : ChunkSer.sstate) m force drop b st',
+  1 <= s_max st -> ChunkSer.serialize st m force drop = Ok (b, st') -> lenN b <= 17 * lenN (m_data m) + 16.
+Proof. exact serialize_size. Qed.
+
+Theorem C19_set_chunk_size_output_bounded : forall (st : ChunkSer.sstate) n ts b st',
+  1 <= s_max st -> set_max_chunk_size st n ts = Ok (b, st') -> lenN b <= 84.
+Proof. exact set_max_chunk_size_size. Qed.
+
+
 Print Assumptions C19_ser_chunk_size.
 Print Assumptions C19_de_chunk_size.
 Print Assumptions C19_payload.
@@ -49,3 +60,5 @@ Print Assumptions C19_slicing_never_terminates_for_zero.
 Print Assumptions C19_chunk_size_always_positive.
 Print Assumptions C19_server_config_chunk_refused.
 Print Assumptions C19_amf0_refused.
+Print Assumptions C19_serialize_output_bounded.
+Print Assumptions C19_set_chunk_size_output_bounded.
